@@ -416,6 +416,15 @@ def check_property(pid, tier, seed):
                     picked += g[::step][:per]
                 rest = [v for v in todo if v not in picked]
                 todo = (picked + rest)[:24]
+            # a deadlock witness that reproduces natively hangs until the test deadline: replay at most two of
+            # them individually; the goroutine stress entry decides the others
+            dl_extra = []
+            if ob.get("native_race_entry"):
+                dl = [v for v in todo if v["kind"] == "deadlock"]
+                if len(dl) > 2:
+                    dl_extra = dl[2:]
+                    todo = [v for v in todo if not any(v is x for x in dl_extra)]
+                    rep["deadlock_witnesses_decided_by_stress_only"] = len(dl_extra)
             # native runs: violation vectors + sampled path witnesses (translator validation)
             smp = [s for s in res.get("samples", [])]
             vectors = [v["vector"] for v in todo] + [s["vector"] for s in smp]
@@ -431,7 +440,7 @@ def check_property(pid, tier, seed):
                 idn = ident(ob["id"], v)
                 if v["kind"] in ("race", "ownership", "deadlock") and ob.get("native_race_entry") and not confirms(v, nat[i]):
                     if race_log is None:
-                        robs, race_log, _ = native_run(ob["native_race_entry"], used, [[0], [1], [2], [3]], dropped_files, timeout_s=120, race=True)
+                        robs, race_log, _ = native_run(ob["native_race_entry"], used, [[0], [1], [2], [3]], dropped_files, timeout_s=60, race=True)
                         race_log = (race_log or "") + " ".join(o or "" for o in robs)
                     if v["kind"] == "deadlock":
                         if "HANG" in race_log or "test timed out" in race_log or "all goroutines are asleep" in race_log:
@@ -452,6 +461,25 @@ def check_property(pid, tier, seed):
                 else:
                     unconfirmed.append({"identity": idn, "vector": v["vector"], "text": v.get("text", ""),
                                         "native_observation": nat[i]})
+            if dl_extra:
+                if race_log is None:
+                    robs, race_log, _ = native_run(ob["native_race_entry"], used, [[0], [1], [2], [3]], dropped_files, timeout_s=60, race=True)
+                    race_log = (race_log or "") + " ".join(o or "" for o in robs)
+                hung = "HANG" in race_log or "test timed out" in race_log or "all goroutines are asleep" in race_log
+                for v in dl_extra:
+                    idn = ident(ob["id"], v)
+                    if hung:
+                        h = hashlib.sha1(idn.encode()).hexdigest()[:10]
+                        path = os.path.join(VERIF, "replays", "%s-%s.json" % (ob["id"], h))
+                        json.dump({"property": pid, "obligation": ob["id"], "entry": ob["entry"], "params": used,
+                                   "vector": v["vector"], "kind": v["kind"], "assert_id": v["assert_id"], "tags": v.get("tags") or [],
+                                   "input_text": v.get("text", ""), "where": v.get("where", ""),
+                                   "native_race_entry": ob.get("native_race_entry", ""), "native_repeat": ob.get("native_repeat", 1),
+                                   "native_observation": "HANG (stress entry)"}, open(path, "w"), indent=1)
+                        violations.append((idn, v, path))
+                        confirmed_here.append(idn)
+                    else:
+                        unconfirmed.append({"identity": idn, "vector": v["vector"], "text": v.get("text", ""), "native_observation": "stress entry did not hang"})
             # translator validation on the path witnesses
             val, mism = 0, []
             for j, s in enumerate(smp):
